@@ -25,19 +25,19 @@ CHECKS = {
  "C14": dict(cat="exploration", tech="mutate-and-resweep aliasing monitor; Go race detector attributed to goirc/state; porcupine linearizability check of timed concurrent histories against the C12 model",
    text="Every returned value is scribbled over and the tracker re-swept against the model; earlier values are compared with their deep copies after later operations; 3..8 goroutines hammer one tracker under -race; many short timed histories are checked for linearizability with porcupine. Held on the histories and interleavings observed (evidence reports overlapping operation pairs).",
    note="Trusted: porcupine v1.3.0; the C12 model as sequential specification; ticks from one atomic counter taken before the call and after the return.", ref="§4 C14"),
- "C03": dict(cat="exploration", tech="offline trace checker over an ENTER/EXIT event log (ordering, non-overlap, CONNECTED/DISCONNECTED placement) under segmentation, handler-delay injection, GOMAXPROCS sweep and the race detector; virtual-time (synctest) slow-handler sessions",
+ "C03": dict(cat="exploration", tech="offline trace checker over an ENTER/EXIT event log (ordering, non-overlap, CONNECTED/DISCONNECTED placement) under segmentation, handler-delay injection, GOMAXPROCS sweep and the race detector; virtual-time (synctest) slow-handler sessions; supervised-reconnect sessions (a supervisor connects while a handler of the old connection still runs)",
    text="Numbered lines are sent through live in-memory connections cut into hostile segmentations (per byte, inside CRLF, lines longer than the read buffer) to verbs with several foreground and background handlers whose durations are drawn to provoke overlap; the event log must show one line's foreground handlers open at a time, strictly increasing dispatch, every handler once, CONNECTED after the welcome is applied and before later lines, DISCONNECTED after every foreground exit. Held on the schedules observed; evidence counts sessions where same-line overlap was seen (log can see overlap) and lines crossed segments. Sessions mix in PING/PRIVMSG/NOTICE/PONG/MODE lines, handlers check that lines arrive whole, the library's own 'nick changed' warning is used as a delay-injection point, and a virtual-time batch runs handlers that take up to an hour.",
    note="Trusted: the event log's tick is taken inside the append critical section, so log order is consistent with real time; schedules are sampled.", ref="§4 C03"),
  "C15": dict(cat="exploration", tech="scribble-and-barrier monitor inside handlers + storage-identity check + race detector attributed to the handlers' writes",
    text="Every handler invocation compares its line with the expected parse, scribbles over all of it, meets the other invocations of the event at a barrier and checks that only its own marks are present; backing arrays and tag maps must be pairwise distinct; the race detector watches the concurrent writes. Held on the events and interleavings produced.",
    note="Trusted: reflect pointers identify storage; the expected line is computed by a deep copy that does not use Line.Copy.", ref="§4 C15"),
- "C16": dict(cat="exploration", tech="invocation-counter and recovery-hook oracles at sync markers under injected panics and permanently parked background handlers; dead-state proof when a marker is not reached",
+ "C16": dict(cat="exploration", tech="invocation-counter and recovery-hook oracles at sync markers under injected panics and permanently parked background handlers; dead-state proof when a marker is not reached; hostile-input mode in which the recovery hook reports which built-in handlers panicked",
    text="User foreground/background and built-in handlers are made to panic with five value kinds at PRNG positions under the default and a custom recovery, next to 0..8 background handlers that never return; at markers every well-behaved handler's count must equal the number of events, the recovery function must have run once per panic with that value and line (default: an error record), and later markers must be reached. Held on the sessions explored.",
    note="Trusted: counters are atomic; a marker not reached is a violation only with a goroutine-census dead-state proof.", ref="§4 C16"),
- "C06": dict(cat="fault_enumeration", tech="fault enumeration on an in-memory transport (cause pairs fired from one barrier) with lifecycle counters, Connected() samples inside handlers and a goroutine-census quiescence oracle; crash journal; race detector",
+ "C06": dict(cat="fault_enumeration", tech="fault enumeration on an in-memory transport (cause pairs fired from one barrier) with lifecycle counters, Connected() samples inside handlers and a goroutine-census quiescence oracle; continuous Connected() polling while second Connects are refused; loopback TCP scenarios; crash journal; race detector",
    text="Every single end cause and every unordered pair of causes (Close from 1/3/8 goroutines, EOF, read error, write error, context cancel) is fired against connections in seven traffic states and five configurations, plus second-Connect-while-connected, failing connects and Close on an unconnected client; REGISTER/DISCONNECTED counts, Connected() samples taken inside the handlers and return values are judged once the goroutine census shows no library goroutine. The cause/traffic grid is enumerated completely; the schedules inside each scenario are sampled (GOMAXPROCS 1,2,4,16, repetitions). A teardown that is proven unable to ever deliver DISCONNECTED is reported here as zero-instead-of-one.",
    note="Trusted: the in-memory net.Conn's fault injection reflects what a socket does (a peer that is gone also fails writes); a teardown that never completes is reported by C07, here it is inconclusive.", ref="§4 C06"),
- "C07": dict(cat="fault_enumeration", tech="goroutine-census wait-for (dead-state) oracle for completion, leak census after DISCONNECTED, wire transcript and tracker/Config().Me checks of every next connection; curated + PRNG fault scenarios; race detector",
+ "C07": dict(cat="fault_enumeration", tech="goroutine-census wait-for (dead-state) oracle for completion, leak census after DISCONNECTED, wire transcript and tracker/Config().Me checks of every next connection; curated + PRNG fault scenarios; the same over loopback TCP sockets against in-process servers that close back or keep the socket open; race detector",
    text="Teardown is driven with inbound backlogs up to 300 lines, outbound backlogs up to 200 lines from handlers or user goroutines against reading/non-reading/bursty servers, handlers idle, gated or blocked in a send, all causes and pairs, 1..5 reconnect cycles from inside the DISCONNECTED handler or another goroutine, tracking on/off. 'Bounded time' is restated as reaching completion without further input; a stuck teardown is a violation only with a proof (two identical all-blocked censuses, no library timer pending). Held on the scenarios and schedules explored. Scenarios with flood protection on tear down while the sender sleeps inside write; every next connection's transcript and handler counters are checked for lines carried over from the previous one.",
    note="Trusted: the dead-state argument (in-memory transport, no external input, harness goroutines never park on timers); flood control off in these scenarios.", ref="§3.5, §4 C07"),
  "C10": dict(cat="exploration", tech="online reference-model monitor (Hybrid penalty recurrence in interval arithmetic) over write timestamps in virtual time (testing/synctest bubble, go1.26.8, race detector)",
